@@ -4,7 +4,7 @@ Spec functions DEF_* are written from the property statements and docs/en/kconfi
 defaults.rst, not from the code.  `assume_entry` clauses are instances of the epoch's defining equations
 (X(self) = DEF_X(self)); everything else is proved about the real function bodies."""
 from pyvc.dsl import (contract, invariant, inline, ite, is_tuple, is_none, is_int, is_str, is_instance, forall_int,
-                      exists_int, tuple_len_is, parses_int, int_val, parses_float, float_val, to_real, uf)
+                      exists_int, tuple_len_is, parses_int, int_val, parses_float, float_val, to_real, uf, str_of_int, hex_of_int, str_of_float)
 from contracts.kschema import EV, BV, SV, VIS, SEL, W2C, FORCED, IS_EXPR
 from esp_kconfiglib.core import (AND, OR, NOT, EQUAL, UNEQUAL, LESS, LESS_EQUAL, GREATER, GREATER_EQUAL,
                                  BOOL, STRING, INT, HEX, FLOAT, UNKNOWN)
@@ -17,7 +17,11 @@ inline(M, "_strcmp", "_sym_to_num", "_is_base_n", "is_float", "_normalize_float"
 # ------------------------------------------------------------------------------------------------ invariants
 @invariant("_cached_str_val")
 def inv_cached_str_val(obj, v):
-    return v is None or v == SV(obj)
+    """a cached value is the epoch's value, and the two side results were left as the epoch defines them"""
+    return v is None or (v == SV(obj)
+                         and (obj.orig_type == UNKNOWN or obj._write_to_conf == W2C(obj))
+                         and (obj.orig_type == UNKNOWN or obj.orig_type == BOOL
+                              or obj._has_active_indirect_set == FORCED(obj)))
 
 
 @invariant("_cached_bool_val")
@@ -287,6 +291,28 @@ class C_Choice_bool_value:
 
 @contract(M, "Symbol.str_value", params=["self"], kind="property", cls="Symbol", result="str", modifies=CACHES)
 class C_Symbol_str_value:
+    # the proof is split by the option's type (the union of the cases is exhaustive by inv_orig_type)
+    def case_bool_unknown(self):
+        return self.orig_type == BOOL or self.orig_type == UNKNOWN
+
+    def case_int(self):
+        return self.orig_type == INT
+
+    def case_hex(self):
+        return self.orig_type == HEX
+
+    def case_string(self):
+        return self.orig_type == STRING
+
+    def case_float(self):
+        return self.orig_type == FLOAT
+
+    def assume_entry(self):
+        t = self.orig_type
+        return (SV(self) == DEF_SV(self)
+                and (t == BOOL or t == UNKNOWN or W2C(self) == DEF_W2C(self))
+                and (t == BOOL or t == UNKNOWN or FORCED(self) == (forced_sym(self) is not None)))
+
     def ensures_value(self, result):
         return result == SV(self)
 
@@ -393,3 +419,204 @@ class C_Symbol__warn_select:
 class C_Symbol_type:
     def ensures_value(self, result):
         return result == self.orig_type
+
+
+# ------------------------------------------------------------------------------------------------ valued symbols (C01, C06)
+# WF(T) clauses used by the value contracts, as invariants of immutable tree fields (assumed at every read; they
+# restrict the quantifier to the "well-formed Kconfig trees" of the property statements):
+def lit_ok(t, text):
+    """the literal operand of `set` / `set default` is well-formed for the target's type"""
+    if t == INT:
+        return parses_int(text, 10)
+    if t == HEX:
+        return parses_int(text, 16) and int_val(text, 16) >= 0
+    if t == FLOAT:
+        return parses_float(text)
+    return True
+
+
+@invariant("rev_values")
+def inv_rev_values(obj, lst):
+    return forall_int(0, len(lst), lambda j: lit_ok(obj.orig_type, lst[j][0].name))
+
+
+@invariant("weak_rev_values")
+def inv_weak_rev_values(obj, lst):
+    return forall_int(0, len(lst), lambda j: lit_ok(obj.orig_type, lst[j][0].name))
+
+
+def operand_ok(t, d):
+    """operand of a `default` of a valued option: a symbol whose value is empty or well-formed for the type"""
+    if not is_instance(d, "Symbol"):
+        return False
+    if t == INT:
+        return SV(d) == "" or parses_int(SV(d), 10)
+    if t == HEX:
+        return SV(d) == "" or (parses_int(SV(d), 16) and int_val(SV(d), 16) >= 0)
+    if t == FLOAT:
+        return SV(d) == "" or parses_float(SV(d))
+    return True
+
+
+@invariant("defaults")
+def inv_defaults(obj, lst):
+    return (is_instance(obj, "Choice") or obj.orig_type == BOOL or obj.orig_type == UNKNOWN
+            or forall_int(0, len(lst), lambda j: operand_ok(obj.orig_type, lst[j][0])))
+
+
+def num_base(s):
+    return ite(s.orig_type == HEX, 16, 10)
+
+
+def num0(text, base):
+    """numeric reading of a value text; text that is not a number reads as 0 (strtoll on an empty string)"""
+    return ite(parses_int(text, base), int_val(text, base), 0)
+
+
+def range_on(s):
+    for lo, hi, c in s.ranges:
+        if EV(c) != 0:
+            return True
+    return False
+
+
+def range_lo(s):
+    for lo, hi, c in s.ranges:
+        if EV(c) != 0:
+            return num0(SV(lo), num_base(s))
+    return 0
+
+
+def range_hi(s):
+    for lo, hi, c in s.ranges:
+        if EV(c) != 0:
+            return num0(SV(hi), num_base(s))
+    return 0
+
+
+def forced_sym(s):
+    """the value operand of the first enabled `set`, or None"""
+    for v, c, src in s.rev_values:
+        if EV(c) != 0:
+            return v
+    return None
+
+
+def weak_sym(s):
+    """the value operand of the first enabled `set default` whose target's dependencies hold, or None"""
+    for v, c, src in s.weak_rev_values:
+        if EV(c) != 0 and EV(s.direct_dep) != 0:
+            return v
+    return None
+
+
+def default_sym(s):
+    """the operand of the first `default` whose condition holds, or None"""
+    for d, c in s.defaults:
+        if EV(c) != 0:
+            return d
+    return None
+
+
+def user_ok_num(s):
+    """the user's value counts: prompt visible, not overridden by `set`, and inside the active range"""
+    uv = s._user_value
+    if VIS(s) == 0 or uv is None or forced_sym(s) is not None:
+        return False
+    n = int_val(uv, num_base(s))
+    return not range_on(s) or (range_lo(s) <= n and n <= range_hi(s))
+
+
+def raw_num(s):
+    """precedence of C01 for int / hex, before clamping"""
+    f = forced_sym(s)
+    if f is not None:
+        return f.name
+    if user_ok_num(s):
+        return s._user_value
+    w = weak_sym(s)
+    if w is not None:
+        return w.name
+    d = default_sym(s)
+    if d is not None:
+        return SV(d)
+    return ""
+
+
+def canon_num(s, n):
+    return ite(s.orig_type == INT, str_of_int(n), hex_of_int(n))
+
+
+def DEF_SV_num(s):
+    raw = raw_num(s)
+    if range_on(s):
+        n = num0(raw, num_base(s))
+        if n < range_lo(s):
+            return canon_num(s, range_lo(s))
+        if n > range_hi(s):
+            return canon_num(s, range_hi(s))
+    return raw
+
+
+def auto_sym(s):
+    return s.env_var is not None or s is s.kconfig.defconfig_list
+
+
+def DEF_W2C_num(s):
+    if auto_sym(s):
+        return False
+    return (VIS(s) != 0 or forced_sym(s) is not None
+            or (not user_ok_num(s) and (weak_sym(s) is not None or default_sym(s) is not None)))
+
+
+# ---- string
+def user_ok_str(s):
+    return VIS(s) != 0 and s._user_value is not None and forced_sym(s) is None
+
+
+def DEF_SV_string(s):
+    f = forced_sym(s)
+    if f is not None:
+        return SV(f)
+    if user_ok_str(s):
+        return s._user_value
+    w = weak_sym(s)
+    if w is not None and SV(w) != "":
+        return SV(w)
+    d = default_sym(s)
+    if d is not None:
+        return SV(d)
+    return ""
+
+
+def DEF_W2C_string(s):
+    if auto_sym(s):
+        return False
+    return (VIS(s) != 0 or forced_sym(s) is not None
+            or (not user_ok_str(s) and (weak_sym(s) is not None or default_sym(s) is not None)))
+
+
+def DEF_SV(s):
+    t = s.orig_type
+    if t == BOOL:
+        return ite(BV(s) == 2, "y", "n")
+    if t == UNKNOWN:
+        return s.name
+    if t == INT or t == HEX:
+        return DEF_SV_num(s)
+    if t == STRING:
+        return DEF_SV_string(s)
+    return FSV(s)
+
+
+def DEF_W2C(s):
+    t = s.orig_type
+    if t == INT or t == HEX:
+        return DEF_W2C_num(s)
+    if t == STRING:
+        return DEF_W2C_string(s)
+    return FW2C(s)
+
+
+FSV = uf("FSV", ["V"], "str")
+FW2C = uf("FW2C", ["V"], "bool")
